@@ -192,7 +192,15 @@ def run(ctx):
               key=('Q3', 'class'))
     preq = ctx.func('ikesa.IkeSa._process_request')
     gq = esc.add_exception_edges(preq)
-    hs = [n for n in gq.nodes if n.kind == 'handler' and n.ast.type is not None and src(n.ast.type) == 'IkeSaError']
+    # the handler that takes a CookieRequired raised by the handlers: the first one, in order, whose class covers it
+    hs = []
+    for n in sorted([n for n in gq.nodes if n.kind == 'handler'], key=lambda n: n.ast.lineno):
+        tys = ['BaseException'] if n.ast.type is None else [esc.hier.name_of(e, preq.module, preq.cls) for e in (
+            n.ast.type.elts if isinstance(n.ast.type, ast.Tuple) else [n.ast.type])]
+        if any(t and esc.hier.is_sub('CookieRequired', t) for t in tys) and n.ast.name and any(
+                isinstance(x, ast.Call) and callee_name(x) == 'from_exception' for x in ast.walk(n.ast)):
+            hs.append(n)
+            break
     ctx.check(len(hs) == 1, 'Q3', '_process_request has a handler for protocol errors', key=('Q3', 'handler'),
               site=ctx.site(preq, preq.node))
     for h in hs:
